@@ -9,11 +9,12 @@ LEVEL = "exploration"
 ENGINE = "E1 product enumerator"
 TECHNIQUE = "bounded-exhaustive enumeration of column option orders x types x defaults, column-shape sequences and table sequences against a reference schema model"
 LEVEL_TEXT = ("Three complete families are rendered from a reference model and parsed by the real library: (A) every ordered selection of "
-              "<=3 (thorough: all) column options x 8 type forms x 13 default forms with the column between two neighbours; (B) every "
-              "table of 1..3 (thorough 4) columns over 12 column shapes covering every last-token class, in 3 layouts; (C) every script of "
-              "1..3 tables over 6 tables, with and without schema. The five attributes the property names are compared per column."
+              "<=3 (thorough: <=5) of 7 column options x 11 type forms x 25 default forms (literals, casts, calls) with the column between two "
+              "neighbours (thorough: every default on every type for <=3 options, on 3 types for 4-5 options); (B) every "
+              "table of 1..3 (thorough 1..5: 321 512 tables) columns over 12 column shapes covering every last-token class, in up to 4 layouts; (C) every script of "
+              "1..3 (thorough 4) tables over 6 tables, with and without schema, with and without ';'. The five attributes the property names are compared per column."
               " Family C is also run behind a comment line that holds a lone apostrophe; every default form meets every type form.")
-LEVEL_NOTE = ("Small-scope bounds: <=5 options, <=4 columns, <=3 tables; type and default alphabets are fixed lists. The reference model is "
+LEVEL_NOTE = ("Small-scope bounds: <=5 options, <=5 columns, <=4 tables; type and default alphabets are fixed lists. The reference model is "
               "written from the property statement, not from the code.")
 RULE = ("case = a table/script rendered from the reference model; expected columns known by construction; non-trivial = at least one "
         "column carrying an option or size, or >= 2 columns/tables; distinct by rendered DDL text")
@@ -67,12 +68,13 @@ LAYOUTS = {"line": ("(", ", ", ")"), "glued": ("(", ",", ")"), "multi": (" (\n  
 
 
 def bounds(tier):
-    return {"options_per_column": 5 if tier == "thorough" else 3, "columns": 4 if tier == "thorough" else 3, "tables_per_script": 3,
+    return {"options_per_column": 5 if tier == "thorough" else 3, "columns": 5 if tier == "thorough" else 3, "tables_per_script": 4 if tier == "thorough" else 3,
             "types": len(TYPES), "defaults": len(DEFAULTS), "shapes": len(SH)}
 
 
 def gen_cases(tier):
     maxo = 5 if tier == "thorough" else 3
+    deep = tier == "thorough"
     cases = []
     # family A
     for k in range(0, maxo + 1):
@@ -81,13 +83,18 @@ def gen_cases(tier):
                 continue
             for ti in range(len(TYPES)):
                 cases.append({"fam": "A", "opts": list(sel), "type": ti, "default": 1, "ref": 0, "pos": 1})
-            if "DEF" in sel and k <= 2:
+            if "DEF" in sel and (k <= 2 or (deep and k == 3)):
                 for di in range(len(DEFAULTS)):
-                    for ti in (range(len(TYPES)) if k == 1 else (0, 1, 4)):
+                    for ti in (range(len(TYPES)) if (k == 1 or deep) else (0, 1, 4)):
                         cases.append({"fam": "A", "opts": list(sel), "type": ti, "default": di, "ref": 0, "pos": 1})
-            if "DEF" in sel and k == 3:
+            elif "DEF" in sel and k == 3:
                 for di in (4, 6, 7, 9, 12):
                     cases.append({"fam": "A", "opts": list(sel), "type": 0, "default": di, "ref": 0, "pos": 1})
+            elif "DEF" in sel and deep:
+                # thorough: every default form behind / in front of every longer option order, on three type forms
+                for di in range(len(DEFAULTS)):
+                    for ti in (0, 1, 4):
+                        cases.append({"fam": "A", "opts": list(sel), "type": ti, "default": di, "ref": 0, "pos": 1})
             if "REF" in sel and (k <= 2 or tier == "thorough"):
                 for ri in range(1, len(REFS)):
                     cases.append({"fam": "A", "opts": list(sel), "type": 0, "default": 1, "ref": ri, "pos": 1})
@@ -95,12 +102,12 @@ def gen_cases(tier):
                 for pos in (0, 2):
                     cases.append({"fam": "A", "opts": list(sel), "type": 2, "default": 4, "ref": 0, "pos": pos})
     # family B
-    maxc = 4 if tier == "thorough" else 3
+    maxc = 5 if tier == "thorough" else 3
     for n in range(1, maxc + 1):
         for shp in itertools.product(range(len(SH)), repeat=n):
             if list(shp).count(4) > 1:
                 continue  # two inline PRIMARY KEYs is not SQL
-            lays = ["line"] if n >= 3 else list(LAYOUTS)
+            lays = ["line"] if n >= (5 if deep else 3) else list(LAYOUTS)
             for lay in lays:
                 cases.append({"fam": "B", "shapes": list(shp), "layout": lay})
     # family D: two columns whose names differ only by letter case or quoting, one of them carrying the option under test
@@ -109,7 +116,7 @@ def gen_cases(tier):
             for first in (0, 1):
                 cases.append({"fam": "D", "opts": opts, "sib": sib, "first": first})
     # family C
-    for n in (1, 2, 3):
+    for n in ((1, 2, 3, 4) if deep else (1, 2, 3)):
         for tabs in itertools.product(range(len(TABS)), repeat=n):
             for sch in (False, True):
                 for lay in (("line", "multi") if n <= 2 else ("line",)):
